@@ -12,7 +12,14 @@ Definition lit_re_match (p m : ustr) : bool := contains p m.
 (* names that can be written between single quotes in the TOML specfile and come back unchanged *)
 Definition toml_safe_char (c : N) : bool :=
   ((48 <=? c) && (c <=? 58)) || ((65 <=? c) && (c <=? 90)) || ((97 <=? c) && (c <=? 122)) || (c =? 95).
+Fixpoint keys_distinct (fs : list mfilter) : bool :=
+  match fs with
+  | [] => true
+  | f :: r => negb (existsb (fun g : mfilter => key_eqb (fst f) (fst g)) r) && keys_distinct r
+  end.
+(* (a TOML table cannot repeat a key, so a specification that names a module twice has no TOML form) *)
 Definition toml_safe (fs : list mfilter) : bool :=
+  keys_distinct fs &&
   forallb (fun f : mfilter => match fst f with Some n => forallb toml_safe_char n && negb (beq n []) | None => true end) fs.
 
 (* ---- kind `spec`: parse a string ---- *)
